@@ -29,11 +29,10 @@ OBLIGATIONS = [
     "SkVerif.C13.aligned_seasonal_eq_phase",
     "SkVerif.C13.deseason_component_depends_on_phase_only",
     "SkVerif.C13.deseason_inverse_roundtrip",
-    "SkVerif.C13.aligned_op_keeps_reference",
-    "SkVerif.C13.phase_independent_of_updates_partial",
-    "SkVerif.C13.phase_after_fit_partial",
-    "SkVerif.C13.phase_depends_on_unaligned_update",
-    "SkVerif.C13.phase_depends_on_failed_refit",
+    "SkVerif.C13.keeps_training_keeps_state",
+    "SkVerif.C13.keeps_training_history",
+    "SkVerif.C13.phase_independent_of_updates",
+    "SkVerif.C13.phase_after_fit",
     "SkVerif.C13.detrend_roundtrip",
     "SkVerif.C13.detrend_trend_is_function_of_label",
     "SkVerif.C13.boxcox_roundtrip",
@@ -43,12 +42,10 @@ OBLIGATIONS = [
     "SkVerif.C13.fit_transform_fit_error",
     "SkVerif.C13.fit_transform_eq_fit_then_transform",
     "SkVerif.C13.fit_transform_history",
-    "SkVerif.C13.shift_equivariance_partial",
+    "SkVerif.C13.shift_equivariance",
     "SkVerif.C13.shiftState_fresh",
-    "SkVerif.C13.shift_equivariance_history_partial",
-    "SkVerif.C13.hampel_not_shift_equivariant",
-    "SkVerif.C13.hampel_positional_at_origin_zero",
-    "SkVerif.C13.hampelPos_shift_equivariant",
+    "SkVerif.C13.shift_equivariance_history",
+    "SkVerif.C13.hampel_index_preserved",
 ]
 TRUSTED = [
     "hand-written model SkVerif/Model/SeriesTransform.lean of _deseasonalize.py, _detrend.py (+ the parts of PolynomialTrendForecaster/_SktimeForecaster it reaches), boxcox.py, adapt.py, compose.py, BaseTransformer.fit_transform, check_series, _hampel_filter",
@@ -71,15 +68,15 @@ RULE = ("a case is a history of calls (fit / update / transform / inverse_transf
         "OptionalPassthrough around each, Hampel filter (w 1..6, origins 0 and != 0), Imputer/ACF/PACF/cos (oracle only), structured random histories, "
         "malformed stream (calls before fit, non-series, float index, empty, unsorted, duplicated, gapped); distinct by driver line; "
         "non-trivial = at least one call returned a non-empty series")
-LEVEL_TEXT = ("proof for the model: alignment of the seasonal component for every start offset (incl. before the training start), round trips "
-              "(deseasonalizer additive/multiplicative, detrender for any embedded regression, Box-Cox/log/adaptor for any library map with the stated "
-              "inverse hypothesis), index preservation of the tagged transformers, fit_transform = fit;transform, shift equivariance of every call and "
-              "history of every modelled transformer except HampelFilter; tie to the code by differential correspondence over call histories")
-LEVEL_NOTE = ("PARTIAL where the code breaks the property: phase independence from the history is proved only for histories whose update batches start a "
-              "multiple of sp from the training start and contain no failed re-fit (negations proved at witnesses and reproduced on the real code as "
-              "KNOWN-FINDINGs: Deseasonalizer.update moves the phase reference; a failing Deseasonalizer.fit moves it too); shift equivariance excludes "
-              "HampelFilter (label-indexed windows, negation proved, KNOWN-FINDING). Observed only (oracle on real code, no model): Imputer, ACF/PACF, cos. "
-              "Library code (statsmodels decomposition, scipy Box-Cox, sklearn transformers, seasonality test) enters as data / uninterpreted functions.")
+LEVEL_TEXT = ("proof for the model: alignment of the seasonal component for every start offset (incl. before the training start); its independence "
+              "from the history (every sequence of update / transform / inverse_transform calls and failing re-fits); round trips (deseasonalizer "
+              "additive/multiplicative, detrender for any embedded regression, Box-Cox/log/adaptor for any library map with the stated inverse "
+              "hypothesis); index preservation of the tagged transformers and of HampelFilter; fit_transform = fit;transform; shift equivariance of "
+              "every call and history of every modelled transformer incl. HampelFilter; tie to the code by differential correspondence over call histories")
+LEVEL_NOTE = ("All clauses are proved at full strength for the model of the code after the fixes 1ad9b8f (Deseasonalizer keeps its phase reference across "
+              "update and failed re-fit) and bc08df8 (HampelFilter reads windows by position); the witnesses of the fixed defects stay in the corpus and "
+              "re-introducing either defect makes the oracle fail. Observed only (oracle on real code, no model): Imputer, ACF/PACF, cos. Library code "
+              "(statsmodels decomposition, scipy Box-Cox, sklearn transformers, seasonality test) enters as data / uninterpreted functions.")
 TECHNIQUE = "Lean 4 executable model + universally quantified theorems (induction, invariants over operation lists); differential correspondence + property oracle on real call histories"
 
 MODELLED = ("des", "cdes", "det", "bc", "log", "ad", "hampel", "pass")
@@ -839,8 +836,8 @@ def _gen_des(tier, rng, cases):
                 ops = [{"op": "fit", "z": z1}, {"op": "tr", "z": z2}, {"op": "upd", "z": ub, "up": rng.choice([None, True, False])},
                        {"op": "tr", "z": z2}, {"op": "inv", "z": z2, "ref": 3}]
                 cases.append({"cfg": ["des", sp, m], "itype": "range", "shift": rng.choice([0, 4]), "ops": ops})
-            # with an update at an arbitrary start (known finding when not a multiple of sp)
-            if tier == "thorough" or rng.random() < 0.35:
+            # with an update at an arbitrary start (the defect fixed by 1ad9b8f showed when it is not a multiple of sp)
+            if tier == "thorough" or rng.random() < 0.5:
                 ub = _series(rng, t0 + n + rng.randrange(0, sp + 1), rng.randrange(1, 4))
                 ops = [{"op": "fit", "z": z1}, {"op": "upd", "z": ub, "up": None},
                        {"op": "tr", "z": z2}, {"op": "inv", "z": z2, "ref": 2}]
@@ -1042,8 +1039,8 @@ def _gen_random(tier, rng, cases, malformed=False):
             op = {"op": k, "z": z}
             if k == "upd":
                 op["up"] = rng.choice([None, True, False])
-                if cfg[0] in ("des", "cdes") and rng.random() < 0.6 and _is_series(z) and z["l"] and not malformed:
-                    # mostly phase-neutral updates (the other kind is the known finding)
+                if cfg[0] in ("des", "cdes") and rng.random() < 0.3 and _is_series(z) and z["l"] and not malformed:
+                    # some phase-neutral updates (batch start a multiple of sp from the training start)
                     d = (z["l"][0] - t0) % sp
                     z["l"] = [l - d for l in z["l"]]
             if k == "inv" and last_tr is not None and rng.random() < 0.7:
